@@ -370,8 +370,7 @@ def pgKinds : List String :=
   ["syntax error", "unterminated quoted string", "unterminated dollar-quoted string", "unterminated quoted identifier",
    "unterminated /* comment", "unterminated bit string literal", "unterminated hexadecimal string literal",
    "zero-length delimited identifier", "trailing junk after numeric literal", "trailing junk after parameter",
-   "invalid Unicode escape", "invalid Unicode escape value", "invalid Unicode surrogate pair", "unsafe use of \\' in a string literal",
-   "unsafe use of string constant with Unicode escapes", "operator too long", "parameter number too large",
+   "invalid Unicode escape", "invalid Unicode escape value", "invalid Unicode surrogate pair", "operator too long", "parameter number too large",
    "invalid hexadecimal integer", "invalid octal integer", "invalid binary integer"]
 
 open ErrText in
